@@ -326,6 +326,11 @@ class GitStore(Store):
             extension = MIMETYPES.guess_extension(content_type)
             if extension is not None:
                 name += extension
+        if name == CONFIG_FILENAME:
+            # the collection's own metadata file is not a member
+            raise InvalidFileContents(
+                content_type, data, f"{CONFIG_FILENAME} is a reserved name"
+            )
         fi.validate()
         try:
             uid = fi.get_uid()
